@@ -210,7 +210,7 @@ def run_history(cfg, ops, scripts, default="exh"):
 
 
 def random_script(rng, style):
-    n = rng.randint(0, 6)
+    n = rng.randint(8, 30) if style.get("long") else rng.randint(0, 6)
     s = []
     for _ in range(n):
         r = rng.random()
@@ -233,11 +233,20 @@ def random_history(rng):
     p_coopstop = rng.choice([0.0, 0.0, 0.02])
     p_ctl = rng.choice([0.1, 0.3, 0.5])          # pause / resume / stop / whenDone share
     n = rng.randint(6, 45)
+    fixed_budget = rng.choice([None, None, 1, 1, 2, 3])     # the usual deployment: the same work-unit allowance every tick
+    p_tick = 0.0
+    if fixed_budget is not None and rng.random() < 0.6:       # long-running schedule: few control operations, many ticks
+        p_tick = 0.7
+        n = rng.randint(25, 70)
+        style = dict(style, long=True)
     ops, scripts = [], []
     nt = 0
     nd_guess = 0
     for _ in range(n):
         r = rng.random()
+        if nt and rng.random() < p_tick:
+            ops.append(("tick", fixed_budget))
+            continue
         if nt == 0 or (nt < nt_max and r < 0.18):
             ops.append(("coiterate",) if rng.random() < 0.25 else ("cooperate",))
             scripts.append(random_script(rng, style))
@@ -254,7 +263,7 @@ def random_history(rng):
         elif r < 0.22 + p_coopstop + p_ctl + 0.15 and nd_guess:
             ops.append(("fire", rng.randint(1, nd_guess), rng.random() < 0.8))
         else:
-            ops.append(("tick", rng.choice([1, 1, 2, 3, 5, 8])))
+            ops.append(("tick", fixed_budget or rng.choice([1, 1, 2, 3, 5, 8])))
     return cfg, ops, scripts
 
 
@@ -409,7 +418,7 @@ def fingerprint(trace, rej):
 
 
 def _report(ctx, traces, rej, label):
-    for x in rej[:40]:
+    for x in rej:
         t = traces[x.idx]
         ev = t["ev"][x.reached] if x.reached < len(t["ev"]) else None
         ctx.violation(fingerprint(t, x),
@@ -427,7 +436,7 @@ def run(ctx):
                                    "TickBegin", "NStep", "TickEnd", "NCoopStop", "CoopStart"])
     traces = []
     seen = set()
-    depth = ctx.pick(3, 5)
+    depth = ctx.pick(3, 4)
     for cfg, ops, scripts in exhaustive(depth):
         t = run_history(cfg, ops, scripts)
         key = repr(t["ev"])
@@ -438,9 +447,9 @@ def run(ctx):
     ctx.exhaustive = True
     ctx.extra["exhaustive_depth"] = depth
     ctx.extra["exhaustive_distinct_histories"] = len(traces)
-    for _ in range(ctx.pick(3000, 100000)):
+    for _ in range(ctx.pick(2500, 100000)):
         traces.append(run_history(*random_history(ctx.rng)))
-    behs = ctx.simulate("CoopSim", "CoopSim.cfg", num=ctx.pick(100, 3000), depth=31)
+    behs = ctx.simulate("CoopSim", "CoopSim.cfg", num=ctx.pick(25, 1500), depth=31)
     drift = 0
     for b in behs:
         t = run_history(*from_behaviour(b), default="val")
